@@ -173,6 +173,8 @@ func (*c08) Execute(ci any) (res any) {
 		obs.Manifest = []byte(rel.Manifest)
 	case "full":
 		c08RunFull(c, &obs)
+	case "guard":
+		c08RunGuard(c, &obs)
 	case "lower":
 		obs.Lowered = []byte(strings.ToLower(string(c.Raw)))
 	case "uninstall":
